@@ -86,9 +86,12 @@ var probed string
 
 const probeSeed = "000102030405060708090a0b0c0d0e0f101112131415161718191a1b1c1d1e1f"
 
-// probeQuirks runs five tiny scenarios on the real code and reports which of the tree-dependent behaviours
-// (DESIGN §7 F2, F3, O1 and the two found by this engine) the working tree shows.  The Lean model takes these
-// as its configuration; the property oracles do NOT depend on them.
+// probeQuirks runs a few tiny scenarios on the real code and reports which of the defects fixed in the official
+// tree (DESIGN §7 F2, F3, O1, secret taproot rows, missing lastaccount row) the working tree shows again.  It is a
+// guard only: the result is written into every `create … q=<flags>` line (so a replay file names the reverted fix)
+// and keeps the generator away from scopes whose account 0 was clobbered.  The Lean model is the fixed tree and
+// ignores it; the property oracles never look at it — a reverted fix is reported by the oracle at the op where it
+// bites (and, on top, as a Go↔Lean disagreement).
 func probeQuirks() string {
 	probeOnce.Do(func() {
 		var q []string
